@@ -432,11 +432,11 @@ def r6_relurl_plain_text(ctx, rep):
 
 
 RULES = [
-    RuleSpec("C18.R5", r5_selector_regexes, "kind/len selector regexes capture the whole expression", floor=5),
-    RuleSpec("C18.R4", r4_literals_and_argument_attributes, "literal case is preserved; argument attributes are complete", floor=5),
-    RuleSpec("C18.R1a", r1_sources, "literal re-insertion sites are the tracked sources; no autoescape", floor=4),
-    RuleSpec("C18.R1", r1_sinks, "literal-bearing text is escaped at every template sink", floor=8),
-    RuleSpec("C18.R2", r2_no_transform_after_restore, "no transformation after literals are re-inserted", floor=4),
-    RuleSpec("C18.R3", r3_heading, "procedure heading assembly", floor=8),
-    RuleSpec("C18.R6", r6_relurl_plain_text, "relurl rewrites links and absolute paths only", floor=2),
+    RuleSpec("C18.R5", r5_selector_regexes, "kind/len selector regexes capture the whole expression", floor=2),
+    RuleSpec("C18.R4", r4_literals_and_argument_attributes, "literal case is preserved; argument attributes are complete", floor=3),
+    RuleSpec("C18.R1a", r1_sources, "literal re-insertion sites are the tracked sources; no autoescape", floor=2),
+    RuleSpec("C18.R1", r1_sinks, "literal-bearing text is escaped at every template sink", floor=5),
+    RuleSpec("C18.R2", r2_no_transform_after_restore, "no transformation after literals are re-inserted", floor=2),
+    RuleSpec("C18.R3", r3_heading, "procedure heading assembly", floor=7),
+    RuleSpec("C18.R6", r6_relurl_plain_text, "relurl rewrites links and absolute paths only", floor=1),
 ]
